@@ -857,6 +857,54 @@ type codeGroup struct {
 	namespace string
 	structs   []string
 	funcs     []string // "Recv.name" or "name"
+	loops     []string // functions that are not translated as a whole (floats, allocation) but whose top-level
+	// `for` loops are: each becomes `<fn>_loop<k>` over the variables it assigns, every other variable it reads is a parameter
+}
+
+// loopSnippets translates the top-level for loops of fd on their own
+func (t *translator) loopSnippets(fd *ast.FuncDecl) {
+	k := fd.Name.Name
+	t.fn, t.aux, t.nloop, t.named, t.muts, t.isErr, t.rbool = k, nil, 0, nil, nil, false, nil
+	defer func() {
+		if r := recover(); r != nil {
+			u, ok := r.(unsupported)
+			if !ok {
+				panic(r)
+			}
+			t.out = append(t.out, fmt.Sprintf("/- NOT TRANSLATED loops of %s: %s -/\n", k, u.msg))
+		}
+	}()
+	for _, st := range fd.Body.List {
+		fs, ok := st.(*ast.ForStmt)
+		if !ok {
+			continue
+		}
+		// every identifier the loop mentions is an integer variable of the enclosing function
+		sc := scope{}
+		ast.Inspect(fs, func(n ast.Node) bool {
+			switch x := n.(type) {
+			case *ast.CallExpr:
+				// conversions and calls: only the arguments are variables
+				for _, a := range x.Args {
+					ast.Inspect(a, func(m ast.Node) bool {
+						if id, ok := m.(*ast.Ident); ok && !intTypes[id.Name] {
+							sc[id.Name] = "Int"
+						}
+						return true
+					})
+				}
+				return false
+			case *ast.Ident:
+				if !intTypes[x.Name] && x.Name != "true" && x.Name != "false" {
+					sc[x.Name] = "Int"
+				}
+			}
+			return true
+		})
+		loop := &ast.ForStmt{Cond: fs.Cond, Post: fs.Post, Body: fs.Body} // the init statement stays with the function
+		t.stmts([]ast.Stmt{loop}, sc, func(scope) string { return "()" })
+	}
+	t.out = append(t.out, strings.Join(t.aux, "\n"))
 }
 
 var codeGroups = []codeGroup{
@@ -864,7 +912,8 @@ var codeGroups = []codeGroup{
 		funcs: []string{"bitLen", "Histogram.getBucketIndex", "Histogram.getSubBucketIdx", "Histogram.countsIndex",
 			"Histogram.valueFromIndex", "Histogram.countsIndexFor", "Histogram.sizeOfEquivalentValueRange",
 			"Histogram.lowestEquivalentValue", "Histogram.nextNonEquivalentValue", "Histogram.highestEquivalentValue",
-			"Histogram.medianEquivalentValue", "Histogram.getCountAtIndex", "Histogram.RecordValues"}},
+			"Histogram.medianEquivalentValue", "Histogram.getCountAtIndex", "Histogram.RecordValues"},
+		loops: []string{"New"}},
 	{file: "events/performance.go", namespace: "Events",
 		structs: []string{"PerformanceCounters", "PerformanceTimers", "PerformanceGauges", "Performance"},
 		funcs:   []string{"Performance.Add"}},
@@ -918,6 +967,18 @@ func translateCode(parse func(string) *ast.File) string {
 				continue
 			}
 			t.function(k)
+		}
+		for _, name := range g.loops {
+			found := false
+			for _, d := range f.Decls {
+				if fd, ok := d.(*ast.FuncDecl); ok && fd.Recv == nil && fd.Name.Name == name && fd.Body != nil {
+					t.loopSnippets(fd)
+					found = true
+				}
+			}
+			if !found {
+				t.out = append(t.out, fmt.Sprintf("/- NOT FOUND: %s -/\n", name))
+			}
 		}
 		for _, d := range t.out {
 			if strings.TrimSpace(d) != "" {
